@@ -27,7 +27,14 @@ from core import f2bits, bits2f
 
 MODULE = "DfolsVerif.Properties.C20"
 BUILD_TARGETS = ["DfolsVerif.Driver.JsonDrv"]    # what lean/JsonMain.lean imports
+def pre_build(ctx):
+    import gen_json
+    gen_json.regenerate(ctx)
+
+
 THEOREMS = [
+    "Dfols.C20.C20_src_keys",
+    "Dfols.C20.C20_src_roundtrip_wiring",
     "Dfols.C20.C20_roundtrip",
     "Dfols.C20.C20_roundtrip_lenient_total",
     "Dfols.C20.C20_strict",
